@@ -11,11 +11,16 @@
    the refutations stay as theorems, their witnesses are replayed by checks/C09.py on
    every run and must no longer reproduce (regression inputs).
    Part C: whole files (ParseTotal/WholeFile.v, Gmp621.v): the stateful line buffer, the
-   option loop with atoi, the dispatch and the token loops of the monomial, legacy 2.x,
-   secular and Chebyshev readers, GMP's mpf_set_str / mpq_set_str as PARAMETERS.
+   option loop, the dispatch and the token loops of the monomial, legacy 2.x, secular and
+   Chebyshev readers, GMP's mpf_set_str / mpq_set_str as PARAMETERS.  The model follows the
+   code after commits e017eba4 (Chebyshev index check: [chk = true]; [chk = false] is the
+   reader before it), fb161c73 + fixes/C18_parsing_error_args.patch (messages raised at end
+   of input are formatted with their arguments), 9e1e2262 (Degree, Precision, the two
+   numbers of a 2.x header and the sparse indices of the monomial readers are read by
+   mps_utils_parse_long: out of range or not a number = refused).
    NOT modelled (observed through ASan on the real code only): what GMP, the allocator and
    the double/DPE conversions do with an accepted token, the history ring of the input
-   buffer, int overflow of n + 1 at Degree = INT_MAX, the yacc grammar of inline input. *)
+   buffer, the yacc grammar of inline input. *)
 Require Import ZArith List String Bool Lia ZifyBool.
 Require Import MPSV.ParseTotal.Tokenizer MPSV.ParseTotal.OptionLine.
 Require Import MPSV.ParseTotal.TokenizerProps MPSV.ParseTotal.OptionLineProps.
@@ -296,12 +301,68 @@ Example C09_whole_file_nonvacuous :
                               (str "Secular;" ++ nl ++ str "Degree=1;" ++ nl ++ str "1.5 2x")
              = SErr (EMsg (str "Parsing error on line 3 near the token: 2x")) b)
   /\ (exists b, parse_string gmpf621 gmpq621 false (budget_of (str "Dense;" ++ nl ++ str "1 2")) (str "Dense;" ++ nl ++ str "1 2")
-             = SErr (EIndet msg_degree_missing) b).
+             = SErr (EMsg msg_degree_missing) b).
 Proof.
   split; [vm_compute; eexists; repeat split|].
   split; [vm_compute; eexists; repeat split|].
   split; vm_compute; eexists; reflexivity.
 Qed.
+
+(* mps_utils_parse_long never yields a number outside the range it was given, and what it
+   yields is the number the digits denote (no wrapping modulo 2^32 or 2^64) *)
+Theorem C09_parse_long_in_range :
+  forall l lo hi v, parse_long l lo hi = Some v ->
+    lo <= v <= hi /\ long_min <= v <= long_max /\ strtol10_exact l = Some v.
+Proof.
+  intros l lo hi v H. unfold parse_long in H. destruct (strtol10_exact l) as [w|]; [|discriminate].
+  destruct ((w <? long_min) || (long_max <? w) || (w <? lo) || (hi <? w)) eqn:E; [discriminate|].
+  inversion H; subst. repeat split; lia.
+Qed.
+Print Assumptions C09_parse_long_in_range.
+
+(* the numbers that used to wrap are refused: Degree=4294967298 (was degree 2), a sparse index
+   4294967296 (was index 0) in a 3.x and in a 2.x file, Precision=4294967306, a 2.x degree word
+   4294967298; Degree=2147483647 is refused as well (n + 1 coefficients are counted in an int) *)
+Example C09_whole_file_integer_range_nonvacuous :
+  parse_long (str "4294967298") 1 (int_max - 1) = None
+  /\ parse_long (str "-9223372036854775809") long_min long_max = None
+  /\ parse_long (str " +17x") long_min long_max = Some 17
+  /\ (exists b, let i := str "Degree=4294967298;" ++ nl ++ str "1 2 3" ++ nl in
+                 parse_string gmpf621 gmpq621 true (budget_of i) i = SErr (EMsg msg_degree_pos) b)
+  /\ (exists b, let i := str "Degree=2147483647;" ++ nl ++ str "1 2 3" ++ nl in
+                 parse_string gmpf621 gmpq621 true (budget_of i) i = SErr (EMsg msg_degree_pos) b)
+  /\ (exists b, let i := str "Precision=4294967306;" ++ nl ++ str "Degree=1;" ++ nl ++ str "1 2" ++ nl in
+                 parse_string gmpf621 gmpq621 true (budget_of i) i = SErr (EMsg msg_prec_pos) b)
+  /\ (exists b, let i := str "Degree=2;" ++ nl ++ str "Sparse;" ++ nl ++ str "4294967296 1.5" ++ nl in
+                 parse_string gmpf621 gmpq621 true (budget_of i) i
+                 = SErr (EMsg (str "Parsing error on line 3 near the token: 4294967296")) b)
+  /\ (exists b, let i := str "sri" ++ nl ++ str "0" ++ nl ++ str "2" ++ nl ++ str "1" ++ nl ++ str "4294967296 5" ++ nl in
+                 parse_stream gmpf621 gmpq621 true (budget_of i) i
+                 = SErr (EMsg (str "Parsing error on line 5 near the token: 4294967296")) b)
+  /\ (exists b, let i := str "dri" ++ nl ++ str "0" ++ nl ++ str "4294967298" ++ nl ++ str "1 2 3" ++ nl in
+                 parse_string gmpf621 gmpq621 true (budget_of i) i = SErr (EMsg (str "Error reading the degree of the polynomial")) b).
+Proof. repeat split; vm_compute; try reflexivity; eexists; reflexivity. Qed.
+
+(* a message raised at end of input (token == NULL) arrives with its argument substituted:
+   literal text followed by %d gives the text followed by the decimal number *)
+Theorem C09_end_of_input_message_carries_argument :
+  forall pre d, forallb (fun c => negb (c =? 37)) pre = true ->
+    null_err (pre ++ str "%d") [AInt d] = EMsg (pre ++ dec d).
+Proof. exact null_err_d. Qed.
+Print Assumptions C09_end_of_input_message_carries_argument.
+
+(* the three call sites with an argument (chebyshev-parser.c, sparse branch): the floating point
+   reader names the degree it has just read, the rational reader passes the counter of the loop
+   that zeroed the coefficients (Degree + 1) *)
+Example C09_end_of_input_message_nonvacuous :
+  (exists b, let i := str "Chebyshev;" ++ nl ++ str "Degree=2;" ++ nl ++ str "Sparse;" ++ nl ++ str "Complex;" ++ nl ++ str "1 1.0" in
+             parse_string gmpf621 gmpq621 true (budget_of i) i
+             = SErr (EMsg (str "Error while reading imaginary part of coefficient 1")) b)
+  /\ (exists b, let i := str "Chebyshev;" ++ nl ++ str "Degree=2;" ++ nl ++ str "Sparse;" ++ nl ++ str "Rational;" ++ nl ++ str "Real;" ++ nl ++ str "0" in
+                 parse_stream gmpf621 gmpq621 true (budget_of i) i
+                 = SErr (EMsg (str "Error while reading the real part of coefficient 3")) b)
+  /\ msg_ch_im_d = str "Error while reading imaginary part of coefficient %d".
+Proof. repeat split; vm_compute; try reflexivity; eexists; reflexivity. Qed.
 
 (* the faithful model reaches GMP's division by zero: in the 3.x monomial, secular and
    Chebyshev readers through mpq_canonicalize, in the legacy reader through mpq_div.
@@ -318,8 +379,10 @@ Theorem C09_whole_file_zero_denominator_refuted :
 Proof. repeat split; vm_compute; eexists; reflexivity. Qed.
 Print Assumptions C09_whole_file_zero_denominator_refuted.
 
-(* the Chebyshev sparse reader indexes its coefficient arrays with the parsed degree
-   without a range check (code 4); with the check of the patch the same file is an error *)
+(* BEFORE commit e017eba4 ([chk = false]) the Chebyshev sparse reader indexed its coefficient
+   arrays with the parsed degree without a range check (code 4); with the check ([chk = true],
+   the code as it is) the same file is an error.  checks/C09.py replays the file: on a tree
+   that has the check the crash must not reproduce (regression input) *)
 Theorem C09_whole_file_chebyshev_sparse_index_refuted :
   let i := str "Chebyshev;" ++ nl ++ str "Degree=2;" ++ nl ++ str "Sparse;" ++ nl ++ str "Real;" ++ nl ++ str "5 1.0" ++ nl in
   (exists b, parse_string gmpf621 gmpq621 false (budget_of i) i = SCrash 4 b)
